@@ -89,6 +89,80 @@ def expected_on_t_sample(T, taus):
     return rec
 
 
+def run_sized(case):
+    """trajectories whose extents sit on the sizes a blocked copy would use: grids of 256 m cells (16x16x1, 8x8x8, 256x1x1...),
+    and / or a number of records that makes nsamples x nspecies x ncells an exact multiple of 65536 (and one off it).  Deterministic
+    engine, K requested times in K distinct steps: record j must be, bit for bit, the state after step j+1 of a per-iteration run
+    (whose own records are cross-read through the raw state export)."""
+    use_repo()
+    engines.install()
+    import strengths as st
+    sd, idx = case["seed"], case["idx"]
+    r = gen.rng_for(sd, "C09sized", idx)
+    w, h, d = r.choice([(16, 16, 1), (8, 8, 8), (256, 1, 1), (4, 64, 1), (16, 16, 2), (32, 8, 1), (17, 15, 1), (3, 5, 7)])
+    C = w * h * d
+    S = r.randint(1, 2)
+    species = [st.Species(l, D=r.uniform(0.2, 1.0), density=0) for l in ["A", "B"][:S]]
+    rx = [st.Reaction("A -> B", kf=0.5, kr=0.2)] if S == 2 else [st.Reaction("A -> ", kf=0.3)]
+    bc = {"x": r.choice(["reflecting", "periodical"]), "y": r.choice(["reflecting", "periodical"]), "z": "reflecting"}
+    system = st.RDSystem(st.RDNetwork(species, rx), st.RDGridSpace(w=w, h=h, d=d, boundary_conditions=bc),
+                         state=[float(r.randint(0, 50)) for _ in range(S * C)])
+    per = S * C
+    if 65536 % per == 0 and r.random() < 0.7:
+        K = (65536 // per) * r.choice([1, 1, 2]) + r.choice([0, 0, 0, 1])
+    else:
+        K = r.randint(3, 40)
+    K = max(2, min(K, 700))
+    dt = 0.01
+    ts = [(k + 0.5) * dt for k in range(K)]
+    kind_ = r.choice(["euler", "euler", "tauleap"])
+    seed_ = r.randrange(2 ** 31)
+    ref_script = st.RDScript(system, t_sample=[0.0, ts[-1]], time_step=dt, sampling_policy="on_iteration", rng_seed=seed_, init_state_processing="none")
+    pol_script = st.RDScript(system, t_sample=list(ts), time_step=dt, sampling_policy="on_t_sample", rng_seed=seed_, init_state_processing="none")
+    e = engines.get(kind_)
+    e.setup(ref_script)
+    raw = [raw_state(e, S, C)]
+    while e.iterate():
+        raw.append(raw_state(e, S, C))
+    raw.append(raw_state(e, S, C))
+    oref = e.get_output()
+    e.finalize()
+    e = engines.get(kind_)
+    e.setup(pol_script)
+    e.iterate_n(10 ** 6)
+    out = e.get_output()
+    e.finalize()
+    bad, counts = [], {"sized_trajectories": 1, "sized_values": 0}
+    dref = np.array(oref.data.value, dtype=float).reshape(-1, per)
+    dpol = np.array(out.data.value, dtype=float)
+    if dpol.size != K * per or out.nsamples() != K:
+        bad.append({"what": "sized trajectory: data does not hold nsamples x nspecies x ncells values", "requested_times": K, "nsamples": out.nsamples(),
+                    "values": int(dpol.size), "grid": [w, h, d], "species": S, "case": case})
+    else:
+        dpol = dpol.reshape(K, per)
+        counts["sized_values"] = int(dpol.size)
+        if dpol.size % 65536 == 0:
+            counts["sized_trajectories_multiple_of_65536"] = 1
+        if C % 256 == 0:
+            counts["sized_grids_multiple_of_256_cells"] = 1
+        for j in range(K):
+            if j + 1 >= len(dref) or dpol[j].tobytes() != dref[j + 1].tobytes():
+                k_ = int(np.argmax(dpol[j] != dref[j + 1])) if j + 1 < len(dref) else -1
+                bad.append({"what": "sized trajectory: a record differs from the state after its step", "record": j, "entry": k_,
+                            "got": float(dpol[j][k_]) if k_ >= 0 else None, "expected": float(dref[j + 1][k_]) if k_ >= 0 else None,
+                            "grid": [w, h, d], "species": S, "records": K, "values": int(dpol.size), "engine": kind_, "case": case})
+                break
+        # the per-iteration reference itself against the live state read through the raw export after each step
+        for j in range(min(len(dref), len(raw))):
+            live = raw[j]
+            if live.tobytes() != dref[j].tobytes():
+                bad.append({"what": "sized trajectory: a per-iteration record differs from the live state read through the raw export", "record": j,
+                            "grid": [w, h, d], "species": S, "engine": kind_, "case": case})
+                break
+    return {"bad": bad[:3], "counts": counts, "key": chash(["sized", sd, idx]), "nontrivial": True,
+            "sample": {"seed": sd, "idx": idx, "grid": [w, h, d], "species": S, "records": K, "engine": kind_}}
+
+
 def run_case(case):
     use_repo()
     engines.install()
@@ -436,6 +510,9 @@ def main():
             run.count(k, n_)
         for b in v["bad"]:
             run.violation(b["what"][:60], b, mech={"what": b["what"]})
+    from vf.sandbox import run_extra as _run_extra
+    _run_extra(run, "vf.checks.c09:run_sized", [{"seed": seed(), "idx": i} for i in range(300 if tier() == "thorough" else 40)], cpu_budget=300)
+    run.require("sized_trajectories", "sized_trajectories_multiple_of_65536", "sized_grids_multiple_of_256_cells")
     return run.finish()
 
 
